@@ -1,6 +1,6 @@
 /-
   Predicates used as hypotheses of the C05 theorem `full_implies_modellable_partial`:
-  two gaps of `Coverage` (shapes of `x = op e` it accepts but the calculus reading rejects)
+  one gap of `Coverage` (a shape of `x = op e` it accepts but the calculus reading rejects)
   and one well-formedness condition on trees.  All are decidable and recursive (`stmtAll`).
 -/
 import Mwp.Spec.Syntax
@@ -39,11 +39,6 @@ def rhsUnop? : Node → Option (String × Node)
     | _ => none
   | _ => none
 
-def noNestedUnaryAt (n : Node) : Bool :=
-  match rhsUnop? n with
-  | some (_, e) => !e.isUnop
-  | none => true
-
 def noIncDecOfConstAt (n : Node) : Bool :=
   match rhsUnop? n with
   | some (op, e) => !(Gen.incDec.contains op && e.isConst)
@@ -55,8 +50,6 @@ def stmtCtor : Node → Bool
   | .other cls _ _ => !Gen.coveragePass.contains cls
   | _ => true
 
-/-- known gap: no `x = op₁ op₂ e` (casts in between allowed) -/
-def NoNestedUnary (n : Node) : Prop := stmtAll noNestedUnaryAt n = true
 /-- gap (not valid C, but pycparser parses it): no `x = ++c` / `x = c--` ... on a constant -/
 def NoIncDecOfConst (n : Node) : Prop := stmtAll noIncDecOfConstAt n = true
 /-- well-formedness: positions of statements hold statements or expressions -/
@@ -64,7 +57,6 @@ def StmtShaped : Node → Prop
   | .funcDef _ b => stmtAll stmtCtor b = true
   | _ => False
 
-instance (n : Node) : Decidable (NoNestedUnary n) := by unfold NoNestedUnary; infer_instance
 instance (n : Node) : Decidable (NoIncDecOfConst n) := by unfold NoIncDecOfConst; infer_instance
 instance (n : Node) : Decidable (StmtShaped n) := by
   cases n <;> unfold StmtShaped <;> infer_instance
